@@ -157,7 +157,13 @@ class State:
         if o.kind in ("list", "set", "iter"):
             return BT if o.items else BF
         if o.kind == "dict":
-            return zor(*[it[2] for it in o.items])
+            known = zor(*[it[2] for it in o.items])
+            if o.meta.get("open"):
+                if "nonempty" not in o.meta:
+                    o.meta = dict(o.meta)
+                    o.meta["nonempty"] = z3.Bool(P.fresh_name("absdict.nonempty"))
+                return zor(known, o.meta["nonempty"])
+            return known
         if o.kind == "abslist":
             return o.meta["nonempty"]
         return BT
